@@ -109,14 +109,15 @@ def corr_values(out, model, st, rng, built, mm, t_end):
     fl = FloatNames()
     while time.time() < t_end:
         typ = rng.choice(types)
-        kind = rng.choice(['m', 'u', 's', 's'])
+        kind = rng.choice(['m', 'u', 's', 'l', 'x', 'b'])
         fname = f'{kind}_{typ}'
         feat = built.features[fname]
         et = feat.eType
         tag = TAGS.get(typ, 4)
-        opts = {'uuid': rng.random() < 0.2, 'serialize_default': rng.random() < 0.8}
-        if kind == 's':
-            v = ['n'] if rng.random() < 0.15 else G.gen_value(rng, typ, mm, 'json')
+        single = kind in X.SINGLE_KINDS
+        opts = {'uuid': rng.random() < 0.2, 'serialize_default': rng.random() < (0.4 if single else 0.8)}
+        if single:
+            v = X.gen_single_value(rng, typ, mm, G.find_feature(mm, 'A', fname))
             if not small(v):
                 v = ['i', 7]
             sets = [[fname, v]]
@@ -137,27 +138,30 @@ def corr_values(out, model, st, rng, built, mm, t_end):
             doc = doc[0]            # a single root may be written alone or as a one-element list
         src = rt.inst[0]
         st['value_documents'] += 1
-        if kind == 's':
+        if single:
             val = src.eGet(fname)
-            if fname not in doc:
-                # not written: only a value equal to the default may be skipped, and it must read back equal
-                dflt = feat.get_default_value()
-                if opts['serialize_default'] or not (val == dflt):
-                    out.diff(f'{fname} = {val!r} was not written (default {dflt!r})', case)
-                elif G.tag_value(rt.loaded.contents[0].eGet(fname)) != G.tag_value(dflt):
-                    out.diff(f'{fname} not written and loaded as something else than its default', case)
-                st['skipped_as_default'] += 1
-                continue
-            t = X.Toks(model.ask('jsonval', [tag] + pyv_tokens(val, tag, et, fl)))
-            mj = read_jv(t, fl)
+            dflt = feat.get_default_value()
+            if isinstance(dflt, int) and not isinstance(dflt, bool) and abs(dflt) >= LIM:
+                continue            # the driver protocol carries integers below 2**61
+            sd = bool(opts['serialize_default'])
+            dt = pyv_tokens(dflt, tag, et, fl)
+            # the writer compares values; the model compares names: values equal under == carry one name
+            vt = dt if (not sd and val is not None and dflt is not None and val == dflt) else pyv_tokens(val, tag, et, fl)
+            t = X.Toks(model.ask('jsonval', [10, tag, 1 if sd else 0] + dt + vt))
+            present = t.z() == 1
+            mj = read_jv(t, fl) if present else None
             mv = read_pyv(t, fl, et)
-            rj = raw_jv(doc[fname])
             rv = G.tag_value(rt.loaded.contents[0].eGet(fname))
-            st['kinds'][mj[0]] = st['kinds'].get(mj[0], 0) + 1
-            if mj != rj:
-                out.diff(f'JSON value of {fname}: model {mj!r} pyecore wrote {rj!r}', case)
+            st['entries_left_out' if not present else 'entries_written'] += 1
+            if present != (fname in doc):
+                out.diff(f'{fname} = {val!r} (default {dflt!r}, serialize_default={sd}): model '
+                         f'{"writes" if present else "leaves out"} the entry, pyecore {"wrote" if fname in doc else "left out"} it', case)
+            elif present and mj != raw_jv(doc[fname]):
+                out.diff(f'JSON value of {fname}: model {mj!r} pyecore wrote {raw_jv(doc[fname])!r}', case)
             elif mv != rv:
                 out.diff(f'loaded value of {fname}: model {mv!r} pyecore {rv!r}', case)
+            if present:
+                st['kinds'][mj[0]] = st['kinds'].get(mj[0], 0) + 1
         else:
             vals = list(src.eGet(fname))
             if fname not in doc:
@@ -225,7 +229,7 @@ def run(ctx, out):
     model = common.Model()
     mm = X.corr_mm()
     built = G.Built(mm)
-    st = {'value_documents': 0, 'skipped_as_default': 0, 'kinds': {}, 'refload_documents': 0}
+    st = {'value_documents': 0, 'skipped_as_default': 0, 'entries_left_out': 0, 'entries_written': 0, 'kinds': {}, 'refload_documents': 0}
     X.guarded(out, 'bidirectional ends', X.corr_refload, out, model, st, ctx.rng, built, mm, 1500 if thorough else 200, fmt='json')
     X.guarded(out, 'attribute values', corr_values, out, model, st, ctx.rng, built, mm, t0 + budget * 0.4)
     model.close()
